@@ -2,7 +2,7 @@
    load/unload steps (induction over the list of steps, no bound); no loading => no damage.
    src_hist_update / src_hd_update / src_bc_lb / src_f_* / src_r_* / src_g come from Gen_Splits.v
    (regenerated from Simulations/_phasefield.py and Models/_phasefield.py on every run). *)
-From Coq Require Import Reals Lra List.
+From Coq Require Import Reals Lra Psatz List.
 From EFP Require Import Gen_Splits.
 Local Open Scope R_scope.
 
@@ -91,6 +91,24 @@ Proof.
 Qed.
 End Fields.
 
+(* ---- change of units: energies (psi, H, Gc/l0) are multiplied by s > 0; the update rule and the source /
+        reaction terms are positively homogeneous, so the damage problem K d = F is multiplied by s as a
+        whole and its solution (the damage) does not change ---- *)
+Theorem hist_update_homogeneous : forall s old psi, 0 < s -> src_hist_update (s * old) (s * psi) = s * src_hist_update old psi.
+Proof.
+  intros s old psi Hs. unfold src_hist_update.
+  destruct (Rlt_dec (s * psi - s * old) 0); destruct (Rlt_dec (psi - old) 0); try reflexivity; exfalso; nra.
+Qed.
+
+Theorem source_reaction_homogeneous : forall s psi Gc l0 : R, 0 < s ->
+  src_f_AT1 (s * psi) (s * Gc) l0 = s * src_f_AT1 psi Gc l0 /\ src_f_AT2 (s * psi) (s * Gc) l0 = s * src_f_AT2 psi Gc l0 /\
+  src_r_AT1 (s * psi) (s * Gc) l0 = s * src_r_AT1 psi Gc l0 /\ src_r_AT2 (s * psi) (s * Gc) l0 = s * src_r_AT2 psi Gc l0.
+Proof.
+  intros s psi Gc l0 Hs. unfold src_f_AT1, src_f_AT2, src_r_AT1, src_r_AT2. repeat split; try (unfold Rdiv; ring).
+  replace (2 * (s * psi) - 3 * (s * Gc) / (8 * l0)) with (s * (2 * psi - 3 * Gc / (8 * l0))) by (unfold Rdiv; ring).
+  rewrite Rabs_mult, (Rabs_right s) by lra. unfold Rdiv. ring.
+Qed.
+
 (* ---- no loading => no damage ---- *)
 Theorem source_vanishes_without_energy : forall Gc l0 : R, 0 < Gc -> 0 < l0 ->
   src_f_AT1 0 Gc l0 = 0 /\ src_f_AT2 0 Gc l0 = 0.
@@ -159,5 +177,7 @@ Print Assumptions history_dominates_driving_energy.
 Print Assumptions damage_monotone_BoundConstrain.
 Print Assumptions damage_monotone_BoundConstrain_step.
 Print Assumptions no_load_no_damage.
+Print Assumptions hist_update_homogeneous.
+Print Assumptions source_reaction_homogeneous.
 Print Assumptions source_nonnegative.
 Print Assumptions reaction_and_degradation_positive.
